@@ -63,6 +63,12 @@ def choice(key, a, shape=(), replace=True, p=None, axis=0):
         pl = list(asarray(p)._v.flatten())
     if len(pl) != len(vals):
         raise ValueError("choice: a and p must have the same size")
+    tw = getattr(EXP, "twin", None)
+    if tw is not None and str(key.term) in tw:
+        # twin run: replay the outcome drawn with this key in the first run; no fork, no constraint
+        k = tw[str(key.term)]
+        EXP.draws.append({"site": _site(), "key": key.term, "p": pl, "k": k, "vals": vals, "pc_len": len(EXP.pc), "twin": True})
+        return ndarray(_wrap0(SC.lift(vals[min(k, len(vals) - 1)])))
     k = EXP.choose(len(vals))
     rec = {"site": _site(), "key": key.term, "p": pl, "k": k, "vals": vals, "pc_len": len(EXP.pc)}
     EXP.draws.append(rec)
